@@ -363,6 +363,11 @@ package twig
 //@ list order_injective_keys toString
 //@ func sortedMapKeys props: C05 C03
 //@   requires ufi_kind(rv) == 21
+// the keys of a map value that can be interfaced are valid values that can be interfaced, and each
+// of them is a key of the map (so MapIndex finds an entry)
+//@   requires[C05] uf_canIface(rv)
+//@   atcall[C05] sort.SliceStable forall k int :: 0 <= k && k < len(keys) ==> ufi_kind(keys[k]) != 0 && uf_canIface(keys[k])
+//@   ensures forall k int :: 0 <= k && k < len(ret) ==> ufi_kind(ret[k]) != 0 && uf_canIface(ret[k]) && uf_hasKey(rv, ret[k]) && ufI_typeOf(ret[k]) == ufI_typeKey(ufI_typeOf(rv))
 //@   ensures[C19] len(ret) == ufi_rvlen(rv)
 
 // ---------------------------------------------------------------- truthiness (C09, C19)
@@ -777,6 +782,7 @@ package twig
 //@ define rList() unboxAs(ret0, "[]interface{}")
 //@ define rAt(K) unboxAs(rList()[K], "int")
 //@ func (*CoreExtension).functionRange props: C09 C05
+//@   arith checked
 //@   loop * invariant (forall k int :: 0 <= k && k < len(args) ==> args[k] == old(args[k])) && (freshArr(result) || len(result) == 0)
 //@   loop 1 invariant[C09] step > 0 && (forall k int :: 0 <= k && k < len(result) ==> typeIs(result[k], "int")) && (forall k int :: 1 <= k && k < len(result) ==> unboxAs(result[k], "int") == unboxAs(result[k - 1], "int") + step)
 //@   loop 1 invariant[C09] (len(result) == 0 ==> i == start) && (len(result) > 0 ==> unboxAs(result[0], "int") == start && unboxAs(result[len(result) - 1], "int") == i - step && i - step <= end && start <= end)
@@ -1224,6 +1230,13 @@ package twig
 //@ func (*CoreExtension).filterReverse props: C05
 //@   loop 1 invariant 0 <= i && i + j == len(runes) - 1
 //@   loop 3 invariant 0 <= i && i + j == len(runes) - 1
+//@   loop 4 invariant 0 <= i && i + j == ufi_rvlen(rv) - 1
+// merge of typed maps: the receiver's map type is kept only when the key and element types of
+// every map argument are assignable to it (sameType), which is what SetMapIndex demands
+//@ define fitsMap(A) (ufi_kind(ufV_valueOf(A)) == 21 ==> uf_assignable(ufI_typeKey(ufI_typeOf(ufV_valueOf(A))), ufI_typeKey(ufI_typeOf(rv))) && uf_assignable(ufI_typeElem(ufI_typeOf(ufV_valueOf(A))), ufI_typeElem(ufI_typeOf(rv))))
+//@ func (*CoreExtension).filterMerge props: C05
+//@   loop 4 invariant 0 - 1 <= rangeindex && rangeindex < len(args) && (sameType ==> (forall j int :: 0 <= j && j <= rangeindex ==> fitsMap(args[j])))
+//@   loop 9 invariant 0 - 1 <= rangeindex && rangeindex < len(args)
 //@ func renderVariableString props: C05
 //@   loop 1 invariant 0 <= start && start <= len(text)
 // comparison callbacks handed to package sort are called with indices of the slice being sorted
@@ -1231,6 +1244,13 @@ package twig
 // have no other caller)
 //@ func sortedMapKeys$1 props: C05
 //@   requires 0 <= i && i < len(keys) && 0 <= j && j < len(keys)
+// what a callback relies on about the variables it captures is discharged where the callback is
+// handed to package sort (the atcall clause of the enclosing function)
+//@   requires forall k int :: 0 <= k && k < len(keys) ==> ufi_kind(keys[k]) != 0 && uf_canIface(keys[k])
+//@ func (*CoreExtension).filterSort$2 props: C05
+//@   requires ufi_kind(result) == 23 && uf_canIface(result) && 0 <= i && i < ufi_rvlen(result) && 0 <= j && j < ufi_rvlen(result)
+//@ func (*CoreExtension).filterSort props: C05
+//@   atcall[C05] sort.SliceStable ufi_kind(result) == 23 && uf_canIface(result)
 //@ func (*CoreExtension).filterSort$1 props: C05
 //@   requires 0 <= i && i < len(result) && 0 <= j && j < len(result)
 //@ func evictLRUEntries$1 props: C05
